@@ -5,6 +5,13 @@ From Falcon.C16 Require Import Model Spec.
 Import ListNotations.
 Open Scope Z_scope.
 
+Definition d_ims (v : val) : ims_hdr :=
+  match v with
+  | L [I 1] => IInvalid
+  | L [I 2; I t] => IDate t
+  | _ => IAbsent
+  end.
+
 Definition d_rng (v : val) : range_hdr :=
   match v with
   | L [I 0] => RAbsent
@@ -69,9 +76,9 @@ Definition run (v : val) : val :=
     L [vbool (sr_match (dstr prefix) (dbool fb) (dstr path));
        vopt vstr (sanitize (List.length (dstr prefix)) (dbool fb) (dstr dir) (dstr path))]
   | L [I 2; rt; files; opt; path; ims; rng] =>
-    v_resp (serve (d_route rt) (d_fs files) (dbool opt) (dstr path) (dopt dZ ims) (d_rng rng))
+    v_resp (serve (d_route rt) (d_fs files) (dbool opt) (dstr path) (d_ims ims) (d_rng rng))
   | L [I 9; rt; files; opt; path; ims; rng; types] =>
-    let r := serve (d_route rt) (d_fs files) (dbool opt) (dstr path) (dopt dZ ims) (d_rng rng) in
+    let r := serve (d_route rt) (d_fs files) (dbool opt) (dstr path) (d_ims ims) (d_rng rng) in
     L [v_resp r;
        vopt (fun p => L [vstr (fst p); vopt vstr (snd p)])
             (served_headers (d_route rt)
